@@ -1,1 +1,1526 @@
 // Kani harnesses compiled inside rs-matter/src/im/subscriptions.rs (module `verif_kani`).
+
+mod c13 {
+    use super::*;
+
+    use core::ops::{Deref, DerefMut};
+
+    use embassy_time::Duration;
+
+    /// Capacity of the pending-change table in the compiled configuration.
+    const CAP: usize = MAX_CHANGED_ATTRS;
+
+    // ------------------------------------------------------------------------------------------
+    // Abstract view of the pending-change table
+    // ------------------------------------------------------------------------------------------
+
+    /// A concrete attribute triple `(endpoint, cluster, attribute)`.
+    type T3 = (EndptId, ClusterId, AttrId);
+
+    fn any_t() -> T3 {
+        (kani::any(), kani::any(), kani::any())
+    }
+
+    /// Plain copy of one table entry. On each axis the all-ones value stands for "any".
+    #[derive(Clone, Copy, PartialEq, Eq)]
+    struct E {
+        e: EndptId,
+        c: ClusterId,
+        a: AttrId,
+        id: u64,
+    }
+
+    const E0: E = E { e: 0, c: 0, a: 0, id: 0 };
+
+    fn e_of(x: &ChangedAttr) -> E {
+        E { e: x.endpoint, c: x.cluster, a: x.attr, id: x.change_id }
+    }
+
+    /// The set of triples an entry stands for: an axis is either "any" or one value.
+    fn o_matches(x: &E, t: T3) -> bool {
+        (x.e == 0xffff || x.e == t.0) && (x.c == 0xffff_ffff || x.c == t.1) && (x.a == 0xffff_ffff || x.a == t.2)
+    }
+
+    /// Set inclusion `x ⊇ y`, axis by axis.
+    fn o_covers(x: &E, y: &E) -> bool {
+        (x.e == 0xffff || (y.e != 0xffff && x.e == y.e))
+            && (x.c == 0xffff_ffff || (y.c != 0xffff_ffff && x.c == y.c))
+            && (x.a == 0xffff_ffff || (y.a != 0xffff_ffff && x.a == y.a))
+    }
+
+    /// Plain copy of the whole table. `b` is a constant bound on `n` chosen by the harness
+    /// (so that the loops below unroll a known number of times).
+    struct Snap {
+        n: usize,
+        b: usize,
+        next: u64,
+        es: [E; CAP],
+    }
+
+    fn snap(t: &ChangedAttrs, b: usize) -> Snap {
+        let mut es = [E0; CAP];
+        let n = t.entries.len();
+        let mut i = 0;
+        while i < b {
+            if i < n {
+                es[i] = e_of(&t.entries[i]);
+            }
+            i += 1;
+        }
+        Snap { n, b, next: t.next_change_id, es }
+    }
+
+    /// `pending(t)`: the largest change id among the entries that match `t` (0 = nothing pending).
+    fn pending(s: &Snap, t: T3) -> u64 {
+        let mut m = 0u64;
+        let mut i = 0;
+        while i < s.b {
+            if i < s.n && o_matches(&s.es[i], t) && s.es[i].id > m {
+                m = s.es[i].id;
+            }
+            i += 1;
+        }
+        m
+    }
+
+    fn max_id(s: &Snap) -> u64 {
+        let mut m = 0u64;
+        let mut i = 0;
+        while i < s.b {
+            if i < s.n && s.es[i].id > m {
+                m = s.es[i].id;
+            }
+            i += 1;
+        }
+        m
+    }
+
+    /// Multiplicity of `x` (all four fields) in the table.
+    fn count_of(s: &Snap, x: &E) -> usize {
+        let mut k = 0usize;
+        let mut i = 0;
+        while i < s.b {
+            if i < s.n && s.es[i] == *x {
+                k += 1;
+            }
+            i += 1;
+        }
+        k
+    }
+
+    fn has_id(s: &Snap, id: u64) -> bool {
+        let mut r = false;
+        let mut i = 0;
+        while i < s.b {
+            if i < s.n && s.es[i].id == id {
+                r = true;
+            }
+            i += 1;
+        }
+        r
+    }
+
+    /// Every id of `s1` is `extra` or an id of `s0`.
+    fn ids_from(s1: &Snap, s0: &Snap, extra: u64) -> bool {
+        let mut r = true;
+        let mut i = 0;
+        while i < s1.b {
+            if i < s1.n && s1.es[i].id != extra && !has_id(s0, s1.es[i].id) {
+                r = false;
+            }
+            i += 1;
+        }
+        r
+    }
+
+    fn same_table(a: &Snap, b: &Snap) -> bool {
+        let mut r = a.n == b.n && a.next == b.next;
+        let mut i = 0;
+        while i < a.b {
+            if i < a.n && a.es[i] != b.es[i] {
+                r = false;
+            }
+            i += 1;
+        }
+        r
+    }
+
+    /// Representation invariant of the table: ids are handed out from `next_change_id`
+    /// upwards starting at 1, so every stored id is in `1..next_change_id`.
+    fn inv(s: &Snap) -> bool {
+        let mut r = s.next >= 1 && s.n <= CAP;
+        let mut i = 0;
+        while i < s.b {
+            if i < s.n && !(s.es[i].id >= 1 && s.es[i].id < s.next) {
+                r = false;
+            }
+            i += 1;
+        }
+        r
+    }
+
+    fn any_attr() -> ChangedAttr {
+        ChangedAttr {
+            endpoint: kani::any(),
+            cluster: kani::any(),
+            attr: kani::any(),
+            change_id: kani::any(),
+        }
+    }
+
+    /// An arbitrary table with exactly `n` entries (any paths, any ids, any counter).
+    fn any_table(n: usize) -> ChangedAttrs {
+        let mut t = ChangedAttrs::new();
+        t.next_change_id = kani::any();
+        let mut i = 0;
+        while i < n {
+            let _ = t.entries.push(any_attr());
+            i += 1;
+        }
+        t
+    }
+
+    /// An arbitrary table with any number of entries in `lo..=hi` (`hi` constant).
+    fn any_table_between(lo: usize, hi: usize) -> ChangedAttrs {
+        let n: usize = kani::any();
+        kani::assume(n >= lo && n <= hi);
+        let mut t = ChangedAttrs::new();
+        t.next_change_id = kani::any();
+        let mut i = 0;
+        while i < hi {
+            if i < n {
+                let _ = t.entries.push(any_attr());
+            }
+            i += 1;
+        }
+        t
+    }
+
+    // ------------------------------------------------------------------------------------------
+    // ChangedAttr::{matches, covers, coarsen}
+    // ------------------------------------------------------------------------------------------
+
+    // TIER: quick
+    // KIND: complete
+    #[kani::proof]
+    fn c13_attr_matches() {
+        let x = any_attr();
+        let t = any_t();
+        kani::assert(x.matches(t.0, t.1, t.2) == o_matches(&e_of(&x), t), "C13.attr.matches_is_set_membership");
+        kani::cover!(x.matches(t.0, t.1, t.2) && x.endpoint != t.0, "endpoint wildcard match");
+        kani::cover!(!x.matches(t.0, t.1, t.2), "no match");
+    }
+
+    /// `covers` is set inclusion: sound (a covered entry's triples are all matched by the
+    /// covering one) and complete (otherwise a concrete, non-sentinel triple tells them apart).
+    // TIER: quick
+    // KIND: complete
+    #[kani::proof]
+    fn c13_attr_covers() {
+        let x = any_attr();
+        let y = any_attr();
+        let t = any_t();
+        let r = x.covers(&y);
+        kani::assert(r == o_covers(&e_of(&x), &e_of(&y)), "C13.attr.covers_is_inclusion");
+        kani::assert(!(r && y.matches(t.0, t.1, t.2)) || x.matches(t.0, t.1, t.2), "C13.attr.covers_sound");
+        // witness of non-inclusion: per axis the value of y if y is concrete, else a concrete value other than x's
+        let we: EndptId = if y.endpoint != 0xffff { y.endpoint } else if x.endpoint == 0 { 1 } else { 0 };
+        let wc: ClusterId = if y.cluster != 0xffff_ffff { y.cluster } else if x.cluster == 0 { 1 } else { 0 };
+        let wa: AttrId = if y.attr != 0xffff_ffff { y.attr } else if x.attr == 0 { 1 } else { 0 };
+        kani::assert(y.matches(we, wc, wa), "C13.attr.covers_witness_in_y");
+        kani::assert(r || !x.matches(we, wc, wa), "C13.attr.covers_complete");
+        kani::assert(x.covers(&x), "C13.attr.covers_reflexive");
+        kani::cover!(r && x.endpoint != y.endpoint, "strictly coarser");
+        kani::cover!(!r, "not covered");
+    }
+
+    // TIER: quick
+    // KIND: complete
+    #[kani::proof]
+    fn c13_attr_coarsen() {
+        let x = any_attr();
+        let level: u8 = kani::any();
+        kani::assume(level == 1 || level == 2); // the only levels the table uses (private function)
+        let t = any_t();
+        let r = x.coarsen(level);
+        let none_expected = x.endpoint == 0xffff || (level == 1 && x.cluster == 0xffff_ffff);
+        kani::assert(r.is_none() == none_expected, "C13.attr.coarsen_none_iff_already_wild");
+        if let Some(c) = r.as_ref() {
+            kani::assert(c.covers(&x), "C13.attr.coarsen_covers_origin");
+            kani::assert(!x.matches(t.0, t.1, t.2) || c.matches(t.0, t.1, t.2), "C13.attr.coarsen_over_covers");
+            kani::assert(c.endpoint == x.endpoint && c.attr == 0xffff_ffff, "C13.attr.coarsen_shape");
+            kani::assert(
+                if level == 1 { c.cluster == x.cluster } else { c.cluster == 0xffff_ffff },
+                "C13.attr.coarsen_level"
+            );
+            kani::assert(c.change_id == 0, "C13.attr.coarsen_id_reset");
+        }
+        kani::cover!(r.is_some() && level == 1, "level 1");
+        kani::cover!(r.is_some() && level == 2, "level 2");
+        kani::cover!(r.is_none(), "not promotable");
+    }
+
+    // ------------------------------------------------------------------------------------------
+    // ChangedAttrs::{watermark, contains_since, any_since, purge_up_to, clear}
+    // ------------------------------------------------------------------------------------------
+
+    fn check_queries(tbl: ChangedAttrs, b: usize) {
+        let s = snap(&tbl, b);
+        let t = any_t();
+        let since: u64 = kani::any();
+
+        kani::assert(tbl.contains_since(t.0, t.1, t.2, since) == (pending(&s, t) > since), "C13.table.contains_since_is_pending_above");
+        kani::assert(tbl.any_since(since) == (max_id(&s) > since), "C13.table.any_since_is_max_above");
+        // a subscription that is not affected by anything has nothing to read
+        kani::assert(tbl.any_since(since) || !tbl.contains_since(t.0, t.1, t.2, since), "C13.table.nothing_since_means_nothing_for_t");
+        if inv(&s) {
+            let w = tbl.watermark();
+            kani::assert(w == s.next - 1, "C13.table.watermark_is_last_id");
+            kani::assert(w >= max_id(&s), "C13.table.watermark_bounds_all_ids");
+            kani::assert(!tbl.any_since(w) && !tbl.contains_since(t.0, t.1, t.2, w), "C13.table.nothing_above_watermark");
+        }
+        kani::cover!(tbl.contains_since(t.0, t.1, t.2, since), "visible");
+        kani::cover!(tbl.any_since(since) && !tbl.contains_since(t.0, t.1, t.2, since), "other path only");
+        kani::cover!(inv(&s) && s.n == b, "invariant satisfiable");
+    }
+
+    // TIER: quick
+    // KIND: bounded (table of 4 entries)
+    #[kani::proof]
+    #[kani::unwind(6)]
+    fn c13_table_queries_4() {
+        check_queries(any_table(4), 4);
+    }
+
+    // STATUS: did not close on the shared machine (CBMC > 1500 s or > 12 GB); see report
+    // TIER: thorough
+    // KIND: complete
+    #[kani::proof]
+    #[kani::unwind(18)]
+    fn c13_table_queries_any_len() {
+        check_queries(any_table_between(0, CAP), CAP);
+    }
+
+    fn check_purge_up_to(mut tbl: ChangedAttrs, b: usize) {
+        let s0 = snap(&tbl, b);
+        let h: u64 = kani::any();
+        let t = any_t();
+        let w: u64 = kani::any();
+        kani::assume(w >= h);
+
+        tbl.purge_up_to(h);
+        let s1 = snap(&tbl, b);
+
+        // entries with id > h are untouched (as a multiset), nothing else appears
+        let j: usize = kani::any();
+        kani::assume(j < s0.n);
+        let x = s0.es[j];
+        kani::assert(!(x.id > h) || count_of(&s1, &x) == count_of(&s0, &x), "C13.purge_up_to.above_threshold_untouched");
+        if s1.n > 0 {
+            let k: usize = kani::any();
+            kani::assume(k < s1.n);
+            let y = s1.es[k];
+            kani::assert(count_of(&s0, &y) >= 1, "C13.purge_up_to.nothing_new");
+            kani::assert(h == 0 || y.id > h, "C13.purge_up_to.at_or_below_threshold_dropped");
+        }
+        kani::assert(s1.next == s0.next, "C13.purge_up_to.counter_untouched");
+        // view: whoever has seen everything up to `h` (or more) sees exactly what it saw before
+        kani::assert((pending(&s1, t) > w) == (pending(&s0, t) > w), "C13.purge_up_to.view_above_threshold_same");
+        kani::assert(!inv(&s0) || inv(&s1), "C13.purge_up_to.invariant_kept");
+
+        kani::cover!(s1.n < s0.n && s1.n > 0, "partial purge");
+        kani::cover!(s1.n == s0.n && s0.n > 0 && h > 0, "nothing to purge");
+        kani::cover!(s1.n == 0, "everything purged");
+        kani::cover!(pending(&s0, t) > w, "visible change kept");
+    }
+
+    // TIER: thorough
+    // KIND: bounded (table of 4 entries)
+    #[kani::proof]
+    #[kani::unwind(6)]
+    fn c13_purge_up_to_4() {
+        check_purge_up_to(any_table(4), 4);
+    }
+
+    // STATUS: did not close on the shared machine (CBMC > 1500 s or > 12 GB); see report
+    // TIER: thorough
+    // KIND: complete
+    #[kani::proof]
+    #[kani::unwind(18)]
+    fn c13_purge_up_to_full() {
+        check_purge_up_to(any_table(CAP), CAP);
+    }
+
+    // TIER: quick
+    // KIND: complete
+    #[kani::proof]
+    #[kani::unwind(18)]
+    fn c13_table_clear() {
+        let mut tbl = any_table_between(0, CAP);
+        let s0 = snap(&tbl, CAP);
+        tbl.clear();
+        let s1 = snap(&tbl, CAP);
+        kani::assert(s1.n == 0, "C13.table_clear.empty");
+        // the id counter survives, so later changes still get larger ids than any watermark handed out
+        kani::assert(s1.next == s0.next, "C13.table_clear.counter_untouched");
+        kani::cover!(s0.n == CAP, "full table cleared");
+    }
+
+    // ------------------------------------------------------------------------------------------
+    // ChangedAttrs::record_raw -> promote_and_insert -> promote_largest_group
+    //
+    // Each caller is verified against the contract of its callee (stub = assert the precondition,
+    // return any table allowed by the postcondition); the contract of the callee is proved on its
+    // real body in its own harness. The universally quantified triple `t` of the postconditions
+    // is shared between harness and stubs through `PROBE`.
+    // ------------------------------------------------------------------------------------------
+
+    static mut PROBE: T3 = (0, 0, 0);
+
+    fn probe() -> T3 {
+        unsafe { PROBE }
+    }
+
+    fn set_probe(t: T3) {
+        unsafe {
+            PROBE = t;
+        }
+    }
+
+    /// Replace the content of the table by any `lo..=hi` entries.
+    fn havoc_entries(t: &mut ChangedAttrs, lo: usize, hi: usize) {
+        t.entries.clear();
+        let n: usize = kani::any();
+        kani::assume(n >= lo && n <= hi);
+        let mut i = 0;
+        while i < CAP {
+            if i < n {
+                let _ = t.entries.push(any_attr());
+            }
+            i += 1;
+        }
+    }
+
+    /// Contract of `promote_largest_group` (proved by `c13_promote_largest_group_*`).
+    fn contract_promote_largest_group(this: &mut ChangedAttrs, level: u8) -> bool {
+        kani::assert(level == 1 || level == 2, "C13.promote_insert.uses_levels_1_and_2_only");
+        let s0 = snap(this, CAP);
+        let r: bool = kani::any();
+        if r {
+            kani::assume(s0.n >= 2);
+            havoc_entries(this, 1, CAP - 1);
+            let s1 = snap(this, CAP);
+            kani::assume(s1.n < s0.n);
+            kani::assume(pending(&s1, probe()) >= pending(&s0, probe()));
+            kani::assume(max_id(&s1) == max_id(&s0));
+        }
+        r
+    }
+
+    /// Contract of `promote_and_insert` (proved by `c13_promote_and_insert_full`).
+    fn contract_promote_and_insert(this: &mut ChangedAttrs, new: ChangedAttr) {
+        let s0 = snap(this, CAP);
+        let ne = e_of(&new);
+        kani::assert(s0.n == CAP, "C13.record.promotes_only_when_full");
+        kani::assert(ne.id > max_id(&s0), "C13.record.promotes_with_the_fresh_id");
+        havoc_entries(this, 1, CAP);
+        let s1 = snap(this, CAP);
+        kani::assume(pending(&s1, probe()) >= pending(&s0, probe()));
+        kani::assume(!o_matches(&ne, probe()) || pending(&s1, probe()) == ne.id);
+        kani::assume(max_id(&s1) == ne.id);
+    }
+
+    fn never_called_promote_and_insert(_this: &mut ChangedAttrs, _new: ChangedAttr) {
+        ::core::unreachable!();
+    }
+
+    /// Step contract of `record_raw` for all tables satisfying the invariant, all recorded
+    /// paths `x` (concrete or wildcard) and all triples `t`.
+    fn check_record_raw(mut tbl: ChangedAttrs, b: usize) -> bool {
+        let s0 = snap(&tbl, b);
+        kani::assume(inv(&s0));
+        // the very last id: see c13_record_id_horizon
+        kani::assume(s0.next < u64::MAX);
+        let x = any_attr();
+        let xe = e_of(&x);
+        let t = any_t();
+        set_probe(t);
+        let b1 = if b < CAP { b + 1 } else { CAP };
+
+        let id = tbl.record_raw(x);
+        let s1 = snap(&tbl, b1);
+
+        kani::assert(id == s0.next, "C13.record.returns_fresh_id");
+        kani::assert(id > max_id(&s0), "C13.record.ids_strictly_increase");
+        kani::assert(s1.next == id + 1 && tbl.watermark() == id, "C13.record.watermark_is_new_id");
+        kani::assert(inv(&s1), "C13.record.invariant_kept");
+        // never under-covers: whatever was pending for `t` is still pending with at least the same id
+        kani::assert(pending(&s1, t) >= pending(&s0, t), "C13.record.never_under_covers");
+        // the recorded change is visible to everybody, with the new (largest) id
+        kani::assert(!o_matches(&xe, t) || pending(&s1, t) == id, "C13.record.change_visible_with_new_id");
+        // coalescing keeps ids, it does not invent them
+        // (on overflow the callee contract only says that the new id is the largest: `invariant_kept`)
+        kani::assert(s0.n == CAP || ids_from(&s1, &s0, id), "C13.record.no_id_invented");
+        // below capacity nothing is over-covered beyond the paths already in the table and `x`
+        kani::assert(
+            !(s0.n < CAP && pending(&s0, t) == 0 && !o_matches(&xe, t)) || pending(&s1, t) == 0,
+            "C13.record.below_capacity_exact"
+        );
+
+        let mut covered = false; // some old entry covers x
+        let mut subsumes = false; // x covers some old entry
+        let mut i = 0;
+        while i < b {
+            if i < s0.n {
+                covered |= o_covers(&s0.es[i], &xe);
+                subsumes |= o_covers(&xe, &s0.es[i]);
+            }
+            i += 1;
+        }
+        kani::cover!(covered, "refresh of a covering entry");
+        kani::cover!(!covered && subsumes, "new entry subsumes old ones");
+        kani::cover!(!covered && !subsumes && s0.n < CAP, "appended");
+        kani::cover!(pending(&s1, t) > pending(&s0, t) && !o_matches(&xe, t), "over-covered");
+        !covered && !subsumes && s0.n == CAP
+    }
+
+    // TIER: quick
+    // KIND: bounded (table of 4 entries; no overflow)
+    #[kani::proof]
+    #[kani::unwind(7)]
+    #[kani::stub(crate::im::subscriptions::ChangedAttrs::promote_and_insert, never_called_promote_and_insert)]
+    fn c13_record_raw_4() {
+        let _ = check_record_raw(any_table(4), 4);
+    }
+
+    // STATUS: did not close on the shared machine (CBMC > 1500 s or > 12 GB); see report
+    // TIER: thorough
+    // KIND: complete
+    #[kani::proof]
+    #[kani::unwind(18)]
+    #[kani::stub(crate::im::subscriptions::ChangedAttrs::promote_and_insert, contract_promote_and_insert)]
+    fn c13_record_raw_full() {
+        let overflow = check_record_raw(any_table(CAP), CAP);
+        kani::cover!(overflow, "table overflow: coalesced");
+    }
+
+    // STATUS: did not close on the shared machine (CBMC > 1500 s or > 12 GB); see report
+    // TIER: thorough
+    // KIND: complete
+    #[kani::proof]
+    #[kani::unwind(18)]
+    #[kani::stub(crate::im::subscriptions::ChangedAttrs::promote_and_insert, never_called_promote_and_insert)]
+    fn c13_record_raw_below_capacity() {
+        let _ = check_record_raw(any_table_between(0, CAP - 1), CAP - 1);
+    }
+
+    /// The id counter: the step contract above holds for every counter value but the last one.
+    /// At `next_change_id == u64::MAX` the counter restarts at 1 (ids no longer increase).
+    // TIER: quick
+    // KIND: complete
+    #[kani::proof]
+    #[kani::unwind(3)]
+    #[kani::stub(crate::im::subscriptions::ChangedAttrs::promote_and_insert, never_called_promote_and_insert)]
+    fn c13_record_id_horizon() {
+        let mut tbl = any_table(0);
+        kani::assume(tbl.next_change_id >= 1);
+        let before = tbl.next_change_id;
+        let id = tbl.record_raw(any_attr());
+        kani::assert(id == before, "C13.record_horizon.id");
+        kani::assert((tbl.next_change_id > id) == (before != u64::MAX), "C13.record_horizon.only_at_u64_max");
+        kani::assert(tbl.next_change_id >= 1, "C13.record_horizon.zero_stays_reserved");
+        kani::cover!(before == u64::MAX, "wrap");
+    }
+
+    /// `promote_and_insert(new)` as called by `record_raw`: the table is full and `new` carries
+    /// the fresh (largest) id.
+    // STATUS: did not close on the shared machine (CBMC > 1500 s or > 12 GB); see report
+    // TIER: thorough
+    // KIND: complete
+    #[kani::proof]
+    #[kani::unwind(18)]
+    #[kani::stub(crate::im::subscriptions::ChangedAttrs::promote_largest_group, contract_promote_largest_group)]
+    fn c13_promote_and_insert_full() {
+        let mut tbl = any_table(CAP);
+        let s0 = snap(&tbl, CAP);
+        let new = any_attr();
+        let ne = e_of(&new);
+        kani::assume(ne.id > max_id(&s0));
+        let t = any_t();
+        set_probe(t);
+
+        tbl.promote_and_insert(new);
+        let s1 = snap(&tbl, CAP);
+
+        kani::assert(s1.n >= 1 && s1.n <= CAP, "C13.promote_insert.fits");
+        kani::assert(pending(&s1, t) >= pending(&s0, t), "C13.promote_insert.never_under_covers");
+        kani::assert(!o_matches(&ne, t) || pending(&s1, t) == ne.id, "C13.promote_insert.new_visible_with_its_id");
+        kani::assert(max_id(&s1) == ne.id, "C13.promote_insert.new_id_is_the_largest");
+        kani::assert(s1.next == s0.next, "C13.promote_insert.counter_untouched");
+
+        kani::cover!(s1.n == 1, "collapsed to the global wildcard");
+        kani::cover!(s1.n == CAP, "one slot freed and reused");
+        kani::cover!(s1.n > 1 && s1.n < CAP, "several slots freed");
+    }
+
+    /// `promote_largest_group(level)`: collapses one group of >= 2 entries into one coarser entry
+    /// that keeps the largest id of the group.
+    fn check_promote_largest_group(mut tbl: ChangedAttrs, b: usize) {
+        let s0 = snap(&tbl, b);
+        let level: u8 = kani::any();
+        kani::assume(level == 1 || level == 2);
+        let t = any_t();
+
+        let r = tbl.promote_largest_group(level);
+        let s1 = snap(&tbl, b);
+
+        // is there a pair of entries sharing the key of this level?
+        let mut pair = false;
+        let mut i = 0;
+        while i < b {
+            let mut j = 0;
+            while j < b {
+                if i < s0.n && j < s0.n && i != j {
+                    let (x, y) = (&s0.es[i], &s0.es[j]);
+                    let same = x.e != 0xffff && x.e == y.e && (level == 2 || (x.c != 0xffff_ffff && x.c == y.c));
+                    pair |= same;
+                }
+                j += 1;
+            }
+            i += 1;
+        }
+        kani::assert(r == pair, "C13.promote_group.iff_group_exists");
+        kani::assert(r || same_table(&s0, &s1), "C13.promote_group.false_changes_nothing");
+        kani::assert(!r || (s1.n < s0.n && s1.n >= 1), "C13.promote_group.frees_a_slot");
+        kani::assert(pending(&s1, t) >= pending(&s0, t), "C13.promote_group.never_under_covers");
+        kani::assert(max_id(&s1) == max_id(&s0), "C13.promote_group.max_id_kept");
+        kani::assert(ids_from(&s1, &s0, max_id(&s0)), "C13.promote_group.no_id_invented");
+        kani::assert(s1.next == s0.next, "C13.promote_group.counter_untouched");
+
+        kani::cover!(r && level == 1, "promoted at level 1");
+        kani::cover!(r && level == 2, "promoted at level 2");
+        kani::cover!(!r && s0.n == b && b > 1, "no group");
+        kani::cover!(r && pending(&s1, t) > pending(&s0, t), "over-covered");
+    }
+
+    // TIER: thorough
+    // KIND: bounded (table of 4 entries)
+    #[kani::proof]
+    #[kani::unwind(6)]
+    fn c13_promote_largest_group_4() {
+        check_promote_largest_group(any_table(4), 4);
+    }
+
+    // STATUS: did not close on the shared machine (CBMC > 1500 s or > 12 GB); see report
+    // TIER: thorough
+    // KIND: complete
+    #[kani::proof]
+    #[kani::unwind(18)]
+    fn c13_promote_largest_group_full() {
+        check_promote_largest_group(any_table(CAP), CAP);
+    }
+
+    // ------------------------------------------------------------------------------------------
+    // Timing gates
+    // ------------------------------------------------------------------------------------------
+
+    fn hz() -> u128 {
+        Duration::from_secs(1).as_ticks() as u128
+    }
+
+    fn any_sub() -> Subscription {
+        Subscription {
+            ids: SubscriptionIds { id: kani::any(), fab_idx: kani::any(), peer_node_id: kani::any() },
+            min_int_secs: kani::any(),
+            max_int_secs: kani::any(),
+            reported_at: Instant::from_ticks(kani::any()),
+            retry_at: Instant::from_ticks(kani::any()),
+            fail_count: kani::any(),
+            max_seen_attr_change_id: kani::any(),
+            max_seen_event_number: kani::any(),
+        }
+    }
+
+    /// `is_expired(now) <=> now >= reported_at + max_int` over the mathematical integers
+    /// (an unrepresentable sum is later than every `now`).
+    // TIER: quick
+    // KIND: complete
+    #[kani::proof]
+    fn c13_gate_is_expired() {
+        let s = any_sub();
+        let now: u64 = kani::any();
+        let deadline = s.reported_at.as_ticks() as u128 + s.max_int_secs as u128 * hz();
+        kani::assert(s.is_expired(Instant::from_ticks(now)) == (now as u128 >= deadline), "C13.gate.expired_iff_max_interval_elapsed");
+        kani::cover!(s.is_expired(Instant::from_ticks(now)), "expired");
+        kani::cover!(!s.is_expired(Instant::from_ticks(now)) && s.reported_at.as_ticks() < now, "alive");
+        kani::cover!(deadline > u64::MAX as u128, "unrepresentable deadline");
+    }
+
+    // TIER: quick
+    // KIND: complete
+    #[kani::proof]
+    fn c13_gate_retry_backoff() {
+        let fc: u8 = kani::any();
+        let max_int: u16 = kani::any();
+        let r = Subscription::retry_backoff_secs(fc, max_int);
+        let cap = if max_int > 2 { max_int } else { 2 };
+        // 2, 4, 8, ... seconds
+        let k = if fc == 0 { 0u32 } else { (fc - 1) as u32 };
+        let exp: u64 = if k >= 16 { u64::MAX } else { 2u64 << k };
+        kani::assert(r as u64 == if exp < cap as u64 { exp } else { cap as u64 }, "C13.gate.backoff_exponential_capped");
+        kani::assert(r >= 2 && r <= cap, "C13.gate.backoff_at_most_max_interval");
+        if fc < u8::MAX {
+            kani::assert(Subscription::retry_backoff_secs(fc + 1, max_int) >= r, "C13.gate.backoff_grows");
+        }
+        kani::cover!(r == cap && cap > 2, "capped");
+        kani::cover!(r < cap && r > 2, "growing");
+    }
+
+    /// The min-interval gate and the liveness point, with their exact definitions.
+    // TIER: quick
+    // KIND: complete
+    #[kani::proof]
+    fn c13_gate_allowed_and_due() {
+        let s = any_sub();
+        let now: u64 = kani::any();
+        let nowi = Instant::from_ticks(now);
+        let primed = s.reported_at != Instant::MAX;
+        let ra = s.reported_at.as_ticks() as u128;
+        let min_gate = ra + s.min_int_secs as u128 * hz();
+        let max_deadline = ra + s.max_int_secs as u128 * hz();
+        let half = (s.max_int_secs as u128 - s.max_int_secs as u128 / 2) * hz();
+
+        // exact definition of the gate
+        let allowed_at = s.report_allowed_at().as_ticks() as u128;
+        let min_part: u128 = if !primed || min_gate > u64::MAX as u128 { 0 } else { min_gate };
+        let retry = s.retry_at.as_ticks() as u128;
+        kani::assert(allowed_at == if min_part > retry { min_part } else { retry }, "C13.gate.allowed_at_definition");
+        kani::assert(s.is_report_allowed(nowi) == (now as u128 >= allowed_at), "C13.gate.allowed_iff_gate_passed");
+        // never more often than the minimum interval (representable gate)
+        if primed && min_gate <= u64::MAX as u128 {
+            kani::assert(!s.is_report_allowed(nowi) || now as u128 >= min_gate, "C13.gate.allowed_implies_min_interval_elapsed");
+        }
+        // a pending retry is a floor as well
+        kani::assert(!s.is_report_allowed(nowi) || now >= s.retry_at.as_ticks(), "C13.gate.allowed_implies_retry_elapsed");
+
+        // liveness point
+        let due_at = s.report_due_at().as_ticks() as u128;
+        let due_exact: u128 = if !primed || ra + half > u64::MAX as u128 { 0 } else { ra + half };
+        kani::assert(due_at == due_exact, "C13.gate.due_at_definition");
+        kani::assert(due_at <= max_deadline, "C13.gate.due_before_max_interval");
+        kani::assert(s.is_report_due(nowi) == (now as u128 >= due_at), "C13.gate.due_iff_point_passed");
+        // a not yet primed subscription is due and (retry aside) allowed at once
+        kani::assert(primed || (due_at == 0 && allowed_at == retry), "C13.gate.unprimed_reports_at_once");
+
+        kani::cover!(primed && s.is_report_allowed(nowi) && !s.is_report_due(nowi), "allowed, not due");
+        kani::cover!(primed && !s.is_report_allowed(nowi) && s.is_report_due(nowi), "due, not allowed");
+        kani::cover!(primed && min_gate > u64::MAX as u128, "unrepresentable min gate");
+        kani::cover!(!primed, "unprimed");
+    }
+
+    /// `is_reportable` / `next_report_at` against the gates, over a table of pending changes.
+    // TIER: thorough
+    // KIND: bounded (table of 2 entries)
+    #[kani::proof]
+    #[kani::unwind(4)]
+    fn c13_gate_is_reportable_next_report_at() {
+        let s = any_sub();
+        let tbl = any_table(2);
+        let ts = snap(&tbl, 2);
+        let now: u64 = kani::any();
+        let ev_wm: u64 = kani::any();
+        let rx: [u8; 0] = [];
+        let nowi = Instant::from_ticks(now);
+
+        let pending_any = max_id(&ts) > s.max_seen_attr_change_id || s.max_seen_event_number < ev_wm;
+        let r = s.is_reportable(nowi, &rx, &tbl, ev_wm);
+        let nra = s.next_report_at(&rx, &tbl, ev_wm);
+
+        // reportable = past the min-interval/retry gate, and something to say or the liveness point passed
+        kani::assert(r == (s.is_report_allowed(nowi) && (pending_any || s.is_report_due(nowi))), "C13.gate.reportable_definition");
+        kani::assert(!r || nowi >= s.report_allowed_at(), "C13.gate.reportable_implies_allowed");
+        let primed = s.reported_at != Instant::MAX;
+        let min_gate = s.reported_at.as_ticks() as u128 + s.min_int_secs as u128 * hz();
+        if primed && min_gate <= u64::MAX as u128 {
+            kani::assert(!r || now as u128 >= min_gate, "C13.gate.reportable_implies_min_interval_elapsed");
+        }
+        // the wake-up point is exactly the first instant at which the subscription is reportable
+        kani::assert(r == (nowi >= nra), "C13.gate.next_report_at_is_first_reportable_instant");
+        kani::assert(nra >= s.report_allowed_at(), "C13.gate.next_report_not_before_gate");
+        // liveness: unless the gate itself is later, the wake-up is no later than the liveness point
+        kani::assert(nra <= s.report_allowed_at().max(s.report_due_at()), "C13.gate.next_report_by_liveness_point");
+        kani::assert(!pending_any || nra == s.report_allowed_at(), "C13.gate.pending_reports_at_gate");
+
+        kani::cover!(r && pending_any && !s.is_report_due(nowi), "reportable because of a change");
+        kani::cover!(r && !pending_any, "liveness report");
+        kani::cover!(!r && pending_any, "change held back by the gate");
+    }
+
+    // ------------------------------------------------------------------------------------------
+    // Subscription table (SubscriptionsInner) and report context
+    // ------------------------------------------------------------------------------------------
+
+    /// Stand-in for the RX buffer pool: a buffer is a one-byte tag (to check that buffers travel
+    /// with their subscription); all of them deref to one shared, never read `IMBuffer`.
+    struct TB(u8);
+
+    static mut SHARED_RX: IMBuffer = IMBuffer::new();
+
+    impl Deref for TB {
+        type Target = IMBuffer;
+
+        fn deref(&self) -> &IMBuffer {
+            unsafe { &*core::ptr::addr_of!(SHARED_RX) }
+        }
+    }
+
+    impl DerefMut for TB {
+        fn deref_mut(&mut self) -> &mut IMBuffer {
+            unsafe { &mut *core::ptr::addr_of_mut!(SHARED_RX) }
+        }
+    }
+
+    struct VB;
+
+    impl Buffers<IMBuffer> for VB {
+        type Buffer<'a>
+            = TB
+        where
+            Self: 'a;
+
+        async fn get(&self) -> Option<Self::Buffer<'_>> {
+            None
+        }
+
+        fn get_immediate(&self) -> Option<Self::Buffer<'_>> {
+            None
+        }
+    }
+
+    /// Largest subscription table used below.
+    const MAXS: usize = DEFAULT_MAX_SUBSCRIPTIONS;
+
+    /// Plain copy of a subscription.
+    #[derive(Clone, Copy, PartialEq, Eq)]
+    struct SS {
+        id: u32,
+        fab: u8,
+        node: u64,
+        min: u16,
+        max: u16,
+        ra: u64,
+        rt: u64,
+        fc: u8,
+        w: u64,
+        ev: u64,
+    }
+
+    const SS0: SS = SS { id: 0, fab: 0, node: 0, min: 0, max: 0, ra: 0, rt: 0, fc: 0, w: 0, ev: 0 };
+
+    fn ss_of(s: &Subscription) -> SS {
+        SS {
+            id: s.ids.id,
+            fab: s.ids.fab_idx.get(),
+            node: s.ids.peer_node_id,
+            min: s.min_int_secs,
+            max: s.max_int_secs,
+            ra: s.reported_at.as_ticks(),
+            rt: s.retry_at.as_ticks(),
+            fc: s.fail_count,
+            w: s.max_seen_attr_change_id,
+            ev: s.max_seen_event_number,
+        }
+    }
+
+    /// Plain copy of the subscription table state (`b` = constant bound on the table length).
+    struct ISnap {
+        n: usize,
+        b: usize,
+        count: usize,
+        next_id: u32,
+        subs: [SS; MAXS],
+        tags: [u8; MAXS],
+        nbufs: usize,
+        reporting: Option<SS>,
+        cancelled: bool,
+        tbl: Snap,
+    }
+
+    fn isnap<const N: usize>(st: &SubscriptionsInner<N>, bufs: &Vec<TB, N>, b: usize, tb: usize) -> ISnap {
+        let mut subs = [SS0; MAXS];
+        let mut tags = [0u8; MAXS];
+        let n = st.subscriptions.len();
+        let mut i = 0;
+        while i < b {
+            if i < n {
+                subs[i] = ss_of(&st.subscriptions[i]);
+            }
+            if i < bufs.len() {
+                tags[i] = bufs[i].0;
+            }
+            i += 1;
+        }
+        ISnap {
+            n,
+            b,
+            count: st.subscriptions_count,
+            next_id: st.next_subscription_id,
+            subs,
+            tags,
+            nbufs: bufs.len(),
+            reporting: st.reporting.as_ref().map(ss_of),
+            cancelled: st.reporting_cancelled.is_some(),
+            tbl: snap(&st.changed_attrs, tb),
+        }
+    }
+
+    /// Number of table slots holding subscription `x` together with buffer `tag`.
+    fn count_sub(s: &ISnap, x: &SS, tag: u8) -> usize {
+        let mut k = 0;
+        let mut i = 0;
+        while i < s.b {
+            if i < s.n && s.subs[i] == *x && s.tags[i] == tag {
+                k += 1;
+            }
+            i += 1;
+        }
+        k
+    }
+
+    /// The subscriptions (with their buffers) of `a` are those of `b`, as multisets, except for
+    /// the probe `(x, tag)` whose multiplicity differs by `delta` (checked at a symbolic slot).
+    fn same_subs_except(a: &ISnap, b: &ISnap, x: &SS, tag: u8, delta: isize) -> bool {
+        // every slot of either side, as a symbolic witness
+        let i: usize = kani::any();
+        let from_a: bool = kani::any();
+        let (y, ytag) = if from_a {
+            kani::assume(i < a.n);
+            (a.subs[i], a.tags[i])
+        } else {
+            kani::assume(i < b.n);
+            (b.subs[i], b.tags[i])
+        };
+        let (ca, cb) = (count_sub(a, &y, ytag) as isize, count_sub(b, &y, ytag) as isize);
+        if y == *x && ytag == tag {
+            ca == cb + delta
+        } else {
+            ca == cb
+        }
+    }
+
+    /// An arbitrary subscription table state with exactly `n` subscriptions in the table and `m`
+    /// pending-change entries; buffers in lockstep, tagged by slot.
+    fn any_inner<const N: usize>(n: usize, m: usize) -> (SubscriptionsInner<N>, Vec<TB, N>) {
+        let mut st = SubscriptionsInner::<N>::new();
+        let mut bufs = Vec::<TB, N>::new();
+        st.next_subscription_id = kani::any();
+        st.subscriptions_count = kani::any();
+        st.changed_attrs = any_table(m);
+        let mut i = 0;
+        while i < n {
+            let _ = st.subscriptions.push(any_sub());
+            let _ = bufs.push(TB(kani::any()));
+            i += 1;
+        }
+        if kani::any() {
+            st.reporting = Some(any_sub());
+        }
+        if kani::any() {
+            st.reporting_cancelled = Some("cancelled");
+        }
+        (st, bufs)
+    }
+
+    /// Invariant of the table state: `in_flight` subscriptions have been moved out into report
+    /// contexts (priming ones and at most one reporting one) and are still counted; nobody has seen
+    /// more than the table has handed out.
+    fn iinv(s: &ISnap, cap_n: usize) -> bool {
+        let mut r = inv(&s.tbl) && s.n <= s.count && s.count <= cap_n && s.nbufs == s.n;
+        let mut i = 0;
+        while i < s.b {
+            if i < s.n && s.subs[i].w >= s.tbl.next {
+                r = false;
+            }
+            i += 1;
+        }
+        // a cancellation is only ever requested for the subscription that is being reported on
+        r && (!s.cancelled || s.reporting.is_some()) && (s.reporting.is_none() || s.count > s.n)
+    }
+
+    fn same_frame(a: &ISnap, b: &ISnap) -> bool {
+        same_table(&a.tbl, &b.tbl)
+    }
+
+    fn same_subs_in_place(a: &ISnap, b: &ISnap) -> bool {
+        let mut r = a.n == b.n && a.nbufs == b.nbufs;
+        let mut i = 0;
+        while i < a.b {
+            if i < a.n && (a.subs[i] != b.subs[i] || a.tags[i] != b.tags[i]) {
+                r = false;
+            }
+            i += 1;
+        }
+        r
+    }
+
+    // TIER: quick
+    // KIND: bounded (2 subscriptions in a table of 3, 2 pending-change entries)
+    #[kani::proof]
+    #[kani::unwind(5)]
+    fn c13_inner_add() {
+        let (mut st, mut bufs) = any_inner::<3>(2, 2);
+        let s0 = isnap(&st, &bufs, 3, 2);
+        kani::assume(iinv(&s0, 3));
+        kani::assume(s0.next_id < u32::MAX); // the very last id: see c13_x1_add_id_overflow
+        let fab: NonZeroU8 = kani::any();
+        let node: u64 = kani::any();
+        let (min, max): (u16, u16) = (kani::any(), kani::any());
+        let tag: u8 = kani::any();
+
+        let r = st.add::<VB>(fab, node, min, max, TB(tag), &mut bufs);
+        let s1 = isnap(&st, &bufs, 3, 2);
+
+        kani::assert(r.is_none() == (s0.count >= 3), "C13.add.refused_iff_full_counting_in_flight");
+        kani::assert(same_frame(&s0, &s1) && same_subs_in_place(&s0, &s1), "C13.add.table_and_changes_untouched");
+        kani::assert(s1.reporting == s0.reporting && s1.cancelled == s0.cancelled, "C13.add.reporting_slot_untouched");
+        match r.as_ref() {
+            None => {
+                kani::assert(s1.count == s0.count && s1.next_id == s0.next_id, "C13.add.refusal_changes_nothing");
+            }
+            Some((sub, buf)) => {
+                let x = ss_of(sub);
+                kani::assert(s1.count == s0.count + 1 && iinv(&s1, 3), "C13.add.counted_while_priming");
+                kani::assert(x.id == s0.next_id && s1.next_id == s0.next_id + 1, "C13.add.fresh_subscription_id");
+                // only changes recorded after this point are owed as incremental updates: the
+                // priming report reads the data after this point
+                kani::assert(x.w == st.changed_attrs.watermark(), "C13.add.watermark_taken_before_priming");
+                kani::assert(sub.reported_at == Instant::MAX && sub.retry_at == Instant::MIN && x.fc == 0, "C13.add.starts_unprimed");
+                kani::assert(x.fab == fab.get() && x.node == node && x.min == min && x.max == max && buf.0 == tag, "C13.add.parameters_kept");
+            }
+        }
+        kani::cover!(r.is_some() && s0.count == 2, "added");
+        kani::cover!(r.is_none() && s0.n == 2, "refused because of an in-flight subscription");
+    }
+
+    /// `add` at the last subscription id. Expected to FAIL today (arithmetic overflow), see report.
+    // TIER: quick
+    // KIND: complete
+    #[kani::proof]
+    #[kani::unwind(3)]
+    fn c13_x1_add_id_overflow() {
+        let (mut st, mut bufs) = any_inner::<3>(0, 0);
+        st.subscriptions_count = 0;
+        st.next_subscription_id = u32::MAX;
+        let r = st.add::<VB>(kani::any(), kani::any(), kani::any(), kani::any(), TB(0), &mut bufs);
+        kani::assert(r.is_some(), "C13.add_horizon.accepted");
+    }
+
+    fn check_find_reportable_and_report<const N: usize>(n: usize, m: usize) {
+        let (mut st, mut bufs) = any_inner::<N>(n, m);
+        let s0 = isnap(&st, &bufs, n, m);
+        kani::assume(iinv(&s0, N));
+        // precondition of `report` (the previous report context has been dropped)
+        kani::assume(s0.reporting.is_none() && !s0.cancelled);
+        let now = Instant::from_ticks(kani::any());
+        let ev_wm: u64 = kani::any();
+        let rx: [u8; 0] = [];
+
+        // oracle: the first slot whose subscription is reportable now
+        let mut first: Option<usize> = None;
+        let mut i = 0;
+        while i < n {
+            if first.is_none() && st.subscriptions[i].is_reportable(now, &rx, &st.changed_attrs, ev_wm) {
+                first = Some(i);
+            }
+            i += 1;
+        }
+        let f = st.find_reportable::<VB>(now, ev_wm, &bufs);
+        kani::assert(f == first, "C13.find_reportable.first_reportable_slot");
+
+        let r = st.report::<VB>(now, ev_wm, &mut bufs);
+        let s1 = isnap(&st, &bufs, n, m);
+
+        kani::assert(r.is_some() == first.is_some(), "C13.report.some_iff_a_subscription_is_reportable");
+        kani::assert(same_frame(&s0, &s1), "C13.report.pending_changes_untouched");
+        kani::assert(s1.count == s0.count && s1.next_id == s0.next_id, "C13.report.still_counted_while_in_flight");
+        match (r.as_ref(), first) {
+            (Some((sub, buf)), Some(i)) => {
+                let x = ss_of(sub);
+                kani::assert(x == s0.subs[i] && buf.0 == s0.tags[i], "C13.report.moves_out_the_reportable_one_with_its_buffer");
+                kani::assert(sub.is_reportable(now, &rx, &st.changed_attrs, ev_wm), "C13.report.only_reportable_subscriptions");
+                kani::assert(s1.reporting == Some(x) && !s1.cancelled, "C13.report.in_flight_copy_left_behind");
+                kani::assert(s1.n + 1 == s0.n && s1.nbufs == s1.n, "C13.report.table_and_buffers_in_lockstep");
+                kani::assert(same_subs_except(&s1, &s0, &x, buf.0, -1), "C13.report.others_untouched");
+                kani::assert(iinv(&s1, N), "C13.report.invariant_kept");
+            }
+            (None, None) => {
+                kani::assert(same_subs_in_place(&s0, &s1) && s1.reporting.is_none(), "C13.report.none_changes_nothing");
+            }
+            _ => {}
+        }
+        kani::cover!(r.is_some() && first == Some(0) && n > 1, "first slot reported");
+        kani::cover!(r.is_some() && first.is_some() && first != Some(0), "later slot reported");
+        kani::cover!(r.is_none() && n > 0, "nothing reportable");
+    }
+
+    // TIER: thorough
+    // KIND: bounded (2 subscriptions in a table of 3, 2 pending-change entries)
+    #[kani::proof]
+    #[kani::unwind(4)]
+    fn c13_inner_find_reportable_and_report() {
+        check_find_reportable_and_report::<3>(2, 2);
+    }
+
+    fn check_report_complete<const N: usize>(n: usize, m: usize) {
+        let (mut st, mut bufs) = any_inner::<N>(n, m);
+        let s0 = isnap(&st, &bufs, n + 1, m);
+        kani::assume(iinv(&s0, N));
+        // precondition: the subscription handed back is one of those in flight
+        kani::assume(s0.count > s0.n);
+        let sub = any_sub();
+        let x = ss_of(&sub);
+        let tag: u8 = kani::any();
+        let keep: bool = kani::any();
+        // the subscription handed back is the one recorded in the reporting slot, or no report is
+        // in flight (a priming context completing while a report is in flight: c13_d12_*)
+        kani::assume(match s0.reporting {
+            Some(r) => r.id == x.id,
+            None => true,
+        });
+
+        st.report_complete::<VB>(sub, TB(tag), &mut bufs, keep);
+        let s1 = isnap(&st, &bufs, n + 1, m);
+
+        kani::assert(same_frame(&s0, &s1), "C13.report_complete.pending_changes_untouched");
+        kani::assert(s1.reporting.is_none() && !s1.cancelled, "C13.report_complete.reporting_slot_cleared");
+        kani::assert(s1.next_id == s0.next_id, "C13.report_complete.id_counter_untouched");
+        if keep && !s0.cancelled {
+            kani::assert(s1.n == s0.n + 1 && s1.nbufs == s1.n && s1.count == s0.count, "C13.report_complete.kept_back_in_table");
+            kani::assert(same_subs_except(&s1, &s0, &x, tag, 1), "C13.report_complete.kept_exactly_as_handed_back");
+        } else {
+            kani::assert(s1.count + 1 == s0.count, "C13.report_complete.dropped_is_uncounted");
+            kani::assert(same_subs_in_place(&s0, &s1), "C13.report_complete.dropped_leaves_table_untouched");
+        }
+        kani::cover!(keep && !s0.cancelled, "kept");
+        kani::cover!(keep && s0.cancelled, "cancelled while in flight");
+        kani::cover!(!keep && !s0.cancelled, "not acknowledged");
+    }
+
+    // TIER: quick
+    // KIND: bounded (2 subscriptions in a table of 3, 2 pending-change entries)
+    #[kani::proof]
+    #[kani::unwind(5)]
+    fn c13_inner_report_complete() {
+        check_report_complete::<3>(2, 2);
+    }
+
+    // TIER: quick
+    // KIND: bounded (2 subscriptions in a table of 3, 2 pending-change entries)
+    #[kani::proof]
+    #[kani::unwind(4)]
+    fn c13_inner_clear() {
+        let (mut st, bufs) = any_inner::<3>(2, 2);
+        let s0 = isnap(&st, &bufs, 2, 2);
+        st.clear();
+        let s1 = isnap(&st, &bufs, 2, 2);
+        kani::assert(s1.n == 0, "C13.inner_clear.table_empty");
+        kani::assert(s1.reporting == s0.reporting, "C13.inner_clear.in_flight_copy_kept");
+        kani::assert(s0.reporting.is_none() || (s1.cancelled && s1.count == 1), "C13.inner_clear.reporting_one_cancelled_and_counted");
+        kani::assert(s0.reporting.is_some() || s1.count == 0, "C13.inner_clear.nothing_counted_otherwise");
+        kani::assert(same_frame(&s0, &s1) && s1.next_id == s0.next_id, "C13.inner_clear.counters_and_changes_untouched");
+        kani::cover!(s0.reporting.is_some(), "report in flight");
+        kani::cover!(s0.reporting.is_none(), "no report in flight");
+    }
+
+    /// `purge_reported_changes` must preserve `NoLoss` for every live subscription: whatever
+    /// subscription `s` could still see above its committed watermark before the purge, it can
+    /// still see afterwards. Here: the subscriptions that sit in the table.
+    fn check_purge_table_subs<const N: usize>(n: usize, m: usize) {
+        let (mut st, bufs) = any_inner::<N>(n, m);
+        let s0 = isnap(&st, &bufs, n, m);
+        kani::assume(iinv(&s0, N));
+        let t = any_t();
+        let k: usize = kani::any();
+        kani::assume(k < s0.n);
+        let w = s0.subs[k].w;
+
+        st.purge_reported_changes();
+        let s1 = isnap(&st, &bufs, n, m);
+
+        kani::assert(!(pending(&s0.tbl, t) > w) || pending(&s1.tbl, t) > w, "C13.purge.no_loss_for_subscriptions_in_table");
+        kani::assert((pending(&s1.tbl, t) > w) == (pending(&s0.tbl, t) > w), "C13.purge.view_of_table_subscriptions_same");
+        kani::assert(ids_from(&s1.tbl, &s0.tbl, 0) && s1.tbl.n <= s0.tbl.n, "C13.purge.only_removes");
+        kani::assert(s1.tbl.next == s0.tbl.next, "C13.purge.change_counter_untouched");
+        kani::assert(same_subs_in_place(&s0, &s1) && s1.count == s0.count && s1.reporting == s0.reporting, "C13.purge.subscriptions_untouched");
+        kani::assert(iinv(&s1, N), "C13.purge.invariant_kept");
+        kani::cover!(pending(&s0.tbl, t) > w && s1.tbl.n < s0.tbl.n, "purged below the slowest, change kept");
+        kani::cover!(s1.tbl.n == 0 && s0.tbl.n > 0, "everything seen by everybody");
+    }
+
+    // TIER: quick
+    // KIND: bounded (2 subscriptions in a table of 3, 3 pending-change entries)
+    #[kani::proof]
+    #[kani::unwind(5)]
+    fn c13_purge_keeps_table_subscriptions_view() {
+        check_purge_table_subs::<3>(2, 3);
+    }
+
+    /// ... and the subscriptions that have been moved out into a `ReportContext` (priming or
+    /// reporting): ghost `w_f` = the committed watermark of one of them.
+    /// Regression harness of D5 (refuted before /repo commit ce8ba7f, passes since).
+    fn check_d5_purge_in_flight<const N: usize>(n: usize, m: usize) {
+        let (mut st, bufs) = any_inner::<N>(n, m);
+        let s0 = isnap(&st, &bufs, n, m);
+        kani::assume(iinv(&s0, N));
+        kani::assume(s0.count > s0.n); // somebody is in flight
+        let w_f: u64 = kani::any();
+        kani::assume(w_f < s0.tbl.next);
+        if let Some(r) = s0.reporting {
+            // the reporter's in-flight subscription is among them
+            kani::assume(s0.count > s0.n + 1 || w_f == r.w);
+        }
+        let t = any_t();
+
+        st.purge_reported_changes();
+        let s1 = isnap(&st, &bufs, n, m);
+
+        kani::cover!(pending(&s0.tbl, t) > w_f, "a change is pending for the in-flight subscription");
+        kani::assert(!(pending(&s0.tbl, t) > w_f) || pending(&s1.tbl, t) > w_f, "C13.purge.no_loss_for_in_flight_subscription");
+    }
+
+    // TIER: quick
+    // KIND: bounded (at most 1 subscription in a table of 3, 2 pending-change entries)
+    #[kani::proof]
+    #[kani::unwind(4)]
+    fn c13_d5_purge_in_flight_only_subscription() {
+        check_d5_purge_in_flight::<3>(0, 2);
+    }
+
+    // TIER: quick
+    // KIND: bounded (1 subscription in the table of 3 + in-flight ones, 2 pending-change entries)
+    #[kani::proof]
+    #[kani::unwind(4)]
+    fn c13_d5_purge_in_flight_with_others() {
+        check_d5_purge_in_flight::<3>(1, 2);
+    }
+
+    // ------------------------------------------------------------------------------------------
+    // Subscriptions::{add, report, report_complete} + ReportContext::{set_keep, set_keep_retry}
+    // ------------------------------------------------------------------------------------------
+
+    /// Install a table state into the public wrappers.
+    fn install<const N: usize>(subs: &Subscriptions<N>, sbufs: &SubscriptionsBuffers<'_, VB, N>, st: SubscriptionsInner<N>, bufs: Vec<TB, N>) {
+        subs.state.lock(|s| *s.borrow_mut() = st);
+        sbufs.with(|b| *b = bufs);
+    }
+
+    fn peek<const N: usize>(subs: &Subscriptions<N>, sbufs: &SubscriptionsBuffers<'_, VB, N>, b: usize, tb: usize) -> ISnap {
+        subs.state.lock(|s| sbufs.with(|bufs| isnap(&s.borrow(), bufs, b, tb)))
+    }
+
+    /// Completing a report: an arbitrary report context over an arbitrary table state, closed by
+    /// `set_keep`, by `set_keep_retry`, or by neither.
+    // TIER: quick
+    // KIND: bounded (1 subscription in a table of 3 + the in-flight one, 2 pending-change entries)
+    #[kani::proof]
+    #[kani::unwind(5)]
+    fn c13_ctx_complete() {
+        let subs = Subscriptions::<3>::new();
+        let sbufs = SubscriptionsBuffers::<VB, 3>::new();
+        let (st, bufs) = any_inner::<3>(1, 2);
+        let s0 = isnap(&st, &bufs, 2, 2);
+        kani::assume(iinv(&s0, 3));
+        kani::assume(s0.count > s0.n);
+        install(&subs, &sbufs, st, bufs);
+
+        let sub = any_sub();
+        let old = ss_of(&sub);
+        // the reporter's context, or a priming context with no report in flight (else: c13_d12_*)
+        kani::assume(match s0.reporting {
+            Some(r) => r.id == old.id,
+            None => true,
+        });
+        let tag: u8 = kani::any();
+        let snapshot_w: u64 = kani::any();
+        let snapshot_ev: u64 = kani::any();
+        let now: u64 = kani::any();
+        let mut ctx = ReportContext {
+            subscriptions: &subs,
+            subscriptions_buffers: &sbufs,
+            subscription: Some(sub),
+            subscription_buffer: Some(TB(tag)),
+            next_max_seen_attr_change_id: snapshot_w,
+            next_max_seen_event_number: snapshot_ev,
+            next_reported_at: Instant::from_ticks(now),
+            next_retry_at: Instant::MIN,
+            next_fail_count: 0,
+            keep: false,
+        };
+
+        let outcome: u8 = kani::any();
+        kani::assume(outcome < 3);
+        match outcome {
+            0 => ctx.set_keep(),
+            1 => ctx.set_keep_retry(),
+            _ => {}
+        }
+        // what the subscription is allowed to read stays its committed watermark until completion
+        kani::assert(ss_of(ctx.subscription()) == old, "C13.ctx.subscription_untouched_until_completion");
+        drop(ctx);
+
+        let s1 = peek(&subs, &sbufs, 2, 2);
+        kani::assert(same_frame(&s0, &s1), "C13.ctx.pending_changes_untouched");
+        kani::assert(s1.reporting.is_none() && !s1.cancelled, "C13.ctx.reporting_slot_cleared");
+
+        let kept = outcome < 2 && !s0.cancelled;
+        let back = if kept { s1.subs[s1.n - 1] } else { SS0 };
+        if kept {
+            kani::assert(s1.n == 2 && s1.count == s0.count && s1.tags[1] == tag, "C13.ctx.kept_back_in_table");
+            kani::assert(s1.subs[0] == s0.subs[0] && s1.tags[0] == s0.tags[0], "C13.ctx.others_untouched");
+            kani::assert(
+                back.id == old.id && back.fab == old.fab && back.node == old.node && back.min == old.min && back.max == old.max,
+                "C13.ctx.identity_and_intervals_kept"
+            );
+        } else {
+            kani::assert(s1.n == 1 && s1.count + 1 == s0.count && same_subs_in_place(&s1, &s0), "C13.ctx.not_kept_is_dropped");
+        }
+        if kept && outcome == 0 {
+            // success: exactly the snapshot taken when the report started is committed
+            kani::assert(back.w == snapshot_w && back.ev == snapshot_ev, "C13.ctx.success_commits_the_snapshot");
+            kani::assert(back.ra == now, "C13.ctx.success_restarts_the_intervals");
+            kani::assert(back.rt == 0 && back.fc == 0, "C13.ctx.success_clears_the_retry");
+        }
+        if kept && outcome == 1 {
+            // failure: nothing is considered sent
+            kani::assert(back.w == old.w && back.ev == old.ev, "C13.ctx.failure_restores_the_watermarks");
+            kani::assert(back.ra == old.ra, "C13.ctx.failure_keeps_last_success_time");
+            kani::assert(back.fc == if old.fc == u8::MAX { u8::MAX } else { old.fc + 1 }, "C13.ctx.failure_counts");
+            let backoff = Subscription::retry_backoff_secs(back.fc, old.max) as u128 * hz();
+            let exp = now as u128 + backoff;
+            kani::assert(back.rt as u128 == if exp > u64::MAX as u128 { u64::MAX as u128 } else { exp }, "C13.ctx.failure_schedules_the_backoff");
+            let cap = if old.max > 2 { old.max } else { 2 };
+            kani::assert(back.rt > now || now == u64::MAX, "C13.ctx.retry_is_later");
+            kani::assert(back.rt as u128 <= now as u128 + cap as u128 * hz(), "C13.ctx.retry_within_max_interval");
+            // the retry reads with the same watermark over an untouched table: at least the same content
+            let t = any_t();
+            kani::assert((pending(&s1.tbl, t) > back.w) == (pending(&s0.tbl, t) > old.w), "C13.ctx.retry_has_the_same_content");
+        }
+        kani::cover!(kept && outcome == 0, "acknowledged");
+        kani::cover!(kept && outcome == 1, "failed, to be retried");
+        kani::cover!(outcome == 2, "torn down");
+        kani::cover!(outcome < 2 && s0.cancelled, "cancelled while in flight");
+    }
+
+    /// `Subscriptions::report`: the watermark to commit is snapshotted in the same critical
+    /// section that moves the subscription out, i.e. before anything is read for the report;
+    /// reading uses the committed watermark over the live table.
+    // TIER: thorough
+    // KIND: bounded (2 subscriptions in a table of 3, 2 pending-change entries)
+    #[kani::proof]
+    #[kani::unwind(4)]
+    fn c13_subs_report_snapshot() {
+        let subs = Subscriptions::<3>::new();
+        let sbufs = SubscriptionsBuffers::<VB, 3>::new();
+        let (st, bufs) = any_inner::<3>(2, 2);
+        let s0 = isnap(&st, &bufs, 2, 2);
+        kani::assume(iinv(&s0, 3));
+        kani::assume(s0.reporting.is_none() && !s0.cancelled);
+        install(&subs, &sbufs, st, bufs);
+        let now: u64 = kani::any();
+        let ev_wm: u64 = kani::any();
+        let t = any_t();
+
+        let r = subs.report(Instant::from_ticks(now), ev_wm, &sbufs);
+        if let Some(mut ctx) = r {
+            let s1 = peek(&subs, &sbufs, 2, 2);
+            let x = ss_of(ctx.subscription());
+            kani::assert(ctx.next_max_seen_attr_change_id == s0.tbl.next - 1, "C13.subs_report.snapshot_is_the_watermark_at_start");
+            kani::assert(ctx.next_max_seen_attr_change_id >= x.w, "C13.subs_report.snapshot_not_below_committed");
+            kani::assert(ctx.next_max_seen_event_number == ev_wm, "C13.subs_report.event_snapshot");
+            kani::assert(ctx.next_reported_at.as_ticks() == now && !ctx.keep, "C13.subs_report.not_kept_unless_told");
+            kani::assert(s1.reporting == Some(x) && same_frame(&s0, &s1), "C13.subs_report.in_flight_recorded");
+            // what gets read: unprimed = everything, else exactly what is pending above the committed watermark
+            let unprimed = x.ra == u64::MAX;
+            kani::assert(
+                ctx.should_report_attr(t.0, t.1, t.2) == (unprimed || pending(&s0.tbl, t) > x.w),
+                "C13.subs_report.reads_everything_above_committed_watermark"
+            );
+            ctx.set_keep();
+            drop(ctx);
+            let s2 = peek(&subs, &sbufs, 2, 2);
+            // after the commit nothing recorded before the snapshot is owed any more, everything after it is
+            kani::assert(s2.n == 2 && s2.subs[1].w == s0.tbl.next - 1 && s2.subs[1].id == x.id, "C13.subs_report.commit_is_the_snapshot");
+            kani::cover!(pending(&s0.tbl, t) > x.w && !unprimed, "a pending change is read");
+        }
+        kani::cover!(s0.n == 2, "state reachable");
+    }
+
+    /// `Subscriptions::add`: the priming context.
+    // TIER: quick
+    // KIND: bounded (1 subscription in a table of 3, 2 pending-change entries)
+    #[kani::proof]
+    #[kani::unwind(4)]
+    fn c13_subs_add_priming_context() {
+        let subs = Subscriptions::<3>::new();
+        let sbufs = SubscriptionsBuffers::<VB, 3>::new();
+        let (st, bufs) = any_inner::<3>(1, 2);
+        let s0 = isnap(&st, &bufs, 2, 2);
+        kani::assume(iinv(&s0, 3));
+        kani::assume(s0.next_id < u32::MAX);
+        kani::assume(s0.reporting.is_none()); // priming while a report is in flight: c13_d12_*
+        install(&subs, &sbufs, st, bufs);
+        let now: u64 = kani::any();
+        let ev_wm: u64 = kani::any();
+        let t = any_t();
+
+        let r = subs.add(Instant::from_ticks(now), kani::any(), kani::any(), kani::any(), kani::any(), ev_wm, TB(7), &sbufs);
+        kani::assert(r.is_some() == (s0.count < 3), "C13.subs_add.some_iff_room");
+        if let Some(mut ctx) = r {
+            let x = ss_of(ctx.subscription());
+            kani::assert(ctx.next_max_seen_attr_change_id == s0.tbl.next - 1 && x.w == s0.tbl.next - 1, "C13.subs_add.snapshot_is_the_watermark_at_start");
+            kani::assert(ctx.should_report_attr(t.0, t.1, t.2), "C13.subs_add.priming_reads_everything");
+            kani::assert(ctx.should_send_if_empty(), "C13.subs_add.priming_is_sent_even_if_empty");
+            kani::assert(ctx.next_reported_at.as_ticks() == now && !ctx.keep, "C13.subs_add.not_kept_unless_told");
+            ctx.set_keep();
+            drop(ctx);
+            let s2 = peek(&subs, &sbufs, 2, 2);
+            kani::assert(s2.n == 2 && s2.subs[1].w == s0.tbl.next - 1 && s2.subs[1].ra == now, "C13.subs_add.commit_is_the_snapshot");
+            kani::assert(s2.count == s0.count + 1 && s2.tags[1] == 7, "C13.subs_add.counted_once");
+        }
+        kani::cover!(s0.count < 3, "room");
+        kani::cover!(s0.count == 3, "full");
+    }
+
+    /// A change recorded while a report is running stays visible after the report commits and
+    /// after the purge that follows in the reporter loop.
+    // TIER: thorough
+    // KIND: bounded (2 subscriptions in a table of 3, 2 pending-change entries)
+    #[kani::proof]
+    #[kani::unwind(5)]
+    #[kani::stub(crate::im::subscriptions::ChangedAttrs::promote_and_insert, never_called_promote_and_insert)]
+    fn c13_scenario_change_during_report_survives_commit_and_purge() {
+        let subs = Subscriptions::<3>::new();
+        let sbufs = SubscriptionsBuffers::<VB, 3>::new();
+        let (st, bufs) = any_inner::<3>(2, 2);
+        let s0 = isnap(&st, &bufs, 2, 2);
+        kani::assume(iinv(&s0, 3));
+        kani::assume(s0.count == s0.n && s0.reporting.is_none() && !s0.cancelled && s0.tbl.next < u64::MAX);
+        install(&subs, &sbufs, st, bufs);
+        let t = any_t();
+
+        let r = subs.report(Instant::from_ticks(kani::any()), kani::any(), &sbufs);
+        if let Some(mut ctx) = r {
+            let id = ctx.subscription().ids.id;
+            subs.notify_attr_changed(t.0, t.1, t.2); // while the report is on its way
+            ctx.set_keep();
+            drop(ctx);
+            subs.purge_reported_changes();
+            let s2 = peek(&subs, &sbufs, 2, 3);
+            kani::assert(s2.n == 2 && s2.subs[1].id == id, "C13.scenario_report.back_in_table");
+            kani::assert(pending(&s2.tbl, t) > s2.subs[1].w, "C13.scenario_report.change_during_report_still_owed");
+            kani::assert(pending(&s2.tbl, t) > s2.subs[0].w, "C13.scenario_report.change_owed_to_the_other_subscriber_too");
+            kani::cover!(true, "report ran");
+        }
+    }
+
+    /// D5, end to end on the public wrappers: a change recorded while the only subscription is
+    /// being primed, then the reporter's purge, then the priming commit.
+    /// Regression harness of D5 (refuted before /repo commit ce8ba7f, passes since).
+    // TIER: quick
+    // KIND: bounded (empty table of 3, 1 pending-change entry)
+    #[kani::proof]
+    #[kani::unwind(4)]
+    #[kani::stub(crate::im::subscriptions::ChangedAttrs::promote_and_insert, never_called_promote_and_insert)]
+    fn c13_d5_scenario_change_during_priming_then_purge() {
+        let subs = Subscriptions::<3>::new();
+        let sbufs = SubscriptionsBuffers::<VB, 3>::new();
+        let (st, bufs) = any_inner::<3>(0, 1);
+        let s0 = isnap(&st, &bufs, 1, 1);
+        kani::assume(iinv(&s0, 3));
+        kani::assume(s0.count == 0 && s0.reporting.is_none() && s0.tbl.next < u64::MAX && s0.next_id < u32::MAX);
+        install(&subs, &sbufs, st, bufs);
+        let t = any_t();
+
+        let r = subs.add(Instant::from_ticks(kani::any()), kani::any(), kani::any(), kani::any(), kani::any(), kani::any(), TB(1), &sbufs);
+        let mut ctx = r.unwrap(); // priming starts: the data is read from here on
+        subs.notify_attr_changed(t.0, t.1, t.2); // the attribute changes after it was read
+        subs.purge_reported_changes(); // the reporter loop ends an iteration
+        ctx.set_keep(); // priming acknowledged
+        drop(ctx);
+
+        let s2 = peek(&subs, &sbufs, 1, 2);
+        kani::assert(s2.n == 1, "C13.scenario_priming.subscription_established");
+        kani::assert(pending(&s2.tbl, t) > s2.subs[0].w, "C13.scenario_priming.change_during_priming_still_owed");
+    }
+
+    /// A priming context completes while the reporter has another subscription in flight: the
+    /// reporting slot and a cancellation requested for the reporter's subscription belong to that
+    /// subscription, not to the one being primed.
+    /// Expected to FAIL today (D12, open).
+    // TIER: quick
+    // KIND: bounded (1 subscription in a table of 3 + two in flight, 1 pending-change entry)
+    #[kani::proof]
+    #[kani::unwind(4)]
+    fn c13_d12_priming_completes_while_report_in_flight() {
+        let (mut st, mut bufs) = any_inner::<3>(1, 1);
+        let s0 = isnap(&st, &bufs, 2, 1);
+        kani::assume(iinv(&s0, 3));
+        kani::assume(s0.count == 3 && s0.reporting.is_some()); // one reporting, one priming
+        let primed = any_sub();
+        let p = ss_of(&primed);
+        kani::assume(p.id != s0.reporting.unwrap().id);
+        let keep: bool = kani::any();
+
+        st.report_complete::<VB>(primed, TB(9), &mut bufs, keep);
+        let s1 = isnap(&st, &bufs, 2, 1);
+
+        kani::cover!(keep && s0.cancelled, "cancellation pending for the other one");
+        kani::cover!(keep && !s0.cancelled, "no cancellation pending");
+        kani::assert(s1.reporting == s0.reporting, "C13.report_complete.other_in_flight_copy_untouched");
+        kani::assert(s1.cancelled == s0.cancelled, "C13.report_complete.cancellation_stays_with_its_subscription");
+        kani::assert(!keep || (s1.n == 2 && s1.subs[1] == p && s1.count == s0.count), "C13.report_complete.primed_subscription_established");
+    }
+
+    /// D12 end to end on the public wrappers: the reporter is reporting to subscription S; the same
+    /// peer re-subscribes without keep-subscriptions (S is flagged for removal, P is added and
+    /// primed and acknowledged); then the report to S completes.
+    /// Expected to FAIL today (D12, open).
+    // TIER: thorough
+    // KIND: bounded (1 subscription in a table of 3, 1 pending-change entry)
+    #[kani::proof]
+    #[kani::unwind(4)]
+    fn c13_d12_scenario_resubscribe_during_report() {
+        let subs = Subscriptions::<3>::new();
+        let sbufs = SubscriptionsBuffers::<VB, 3>::new();
+        let (st, bufs) = any_inner::<3>(1, 1);
+        let s0 = isnap(&st, &bufs, 2, 1);
+        kani::assume(iinv(&s0, 3));
+        kani::assume(s0.count == 1 && s0.reporting.is_none() && s0.next_id < u32::MAX && s0.next_id > s0.subs[0].id);
+        install(&subs, &sbufs, st, bufs);
+        let now = Instant::from_ticks(kani::any());
+
+        let r = subs.report(now, kani::any(), &sbufs);
+        if let Some(mut ctx_s) = r {
+            let (fab, node, old_id) = {
+                let ids = ctx_s.subscription().ids();
+                (ids.fab_idx, ids.peer_node_id, ids.id)
+            };
+            // SubscribeRequest from the same peer, keep_subs = false
+            let removed = subs.remove(&sbufs, |s| (s.ids().fab_idx == fab && s.ids().peer_node_id == node).then_some("new subscription request"));
+            kani::assert(removed, "C13.scenario_resubscribe.old_one_flagged");
+            let rp = subs.add(now, fab, node, kani::any(), kani::any(), kani::any(), TB(2), &sbufs);
+            let mut ctx_p = rp.unwrap();
+            let new_id = ctx_p.subscription().ids().id;
+            ctx_p.set_keep(); // primed and acknowledged, SubscribeResponse sent
+            drop(ctx_p);
+            ctx_s.set_keep(); // the report to the old one gets through as well
+            drop(ctx_s);
+
+            let s2 = peek(&subs, &sbufs, 2, 1);
+            kani::cover!(true, "report was in flight");
+            kani::assert(s2.n == 1 && s2.count == 1, "C13.scenario_resubscribe.exactly_one_left");
+            kani::assert(s2.n >= 1 && s2.subs[0].id == new_id, "C13.scenario_resubscribe.the_new_subscription_is_the_one_kept");
+            kani::assert(!(s2.n >= 1 && s2.subs[0].id == old_id), "C13.scenario_resubscribe.the_replaced_one_is_gone");
+        }
+    }
+}
